@@ -191,7 +191,11 @@ func (f *frame) inlineCall(t *ssa.Call, callee *ssa.Function, fc *FuncContract, 
 		conds = append(conds, r.pc)
 		heaps = append(heaps, r.heap)
 	}
-	pc := x.S.Define("pc", Or(conds...))
+	var parents []string
+	for _, c := range conds {
+		parents = append(parents, c.S)
+	}
+	pc := x.S.DefinePC(Or(conds...), parents)
 	heap := x.H.Merge(conds, heaps)
 	// merge results
 	nres := len(sub.rets[0].vals)
@@ -402,7 +406,7 @@ func (x *Exec) havocTarget(h *HeapState, mt modTarget) *HeapState {
 		keys, sorts := elemKeys(mt.elem)
 		for i, k := range keys {
 			a := x.H.Get(h, k, wrapSort(sorts[i], 1))
-			h = x.H.Set(h, k, Store(a, mt.arrRef, x.S.Declare("hv_arr", SArr(SBV(64), sorts[i]))))
+			h = x.H.SetAt(h, k, mt.arrRef, Store(a, mt.arrRef, x.S.Declare("hv_arr", SArr(SBV(64), sorts[i]))))
 		}
 		return h
 	}
@@ -579,7 +583,21 @@ func (f *frame) copyBuiltin(t *ssa.Call) {
 		a := x.H.Get(h, k, wrapSort(sorts[i], 1))
 		dinner := Select(a, dst.T[0])
 		var newInner Term
-		if c, ok := n.Const(); ok && c.Cmp(big.NewInt(16)) <= 0 {
+		if dst.FixedN > 0 && dst.FixedN <= 32 {
+			// destination lives in a small fixed-size array: write every position explicitly
+			newInner = dinner
+			for p := int64(0); p < dst.FixedN; p++ {
+				pp := BVInt(p, 64)
+				rel := BVBin("bvsub", pp, dst.T[1])
+				var sv Term
+				if srcIsStr {
+					sv = x.strByte(src.One(), rel)
+				} else {
+					sv = Select(Select(a, src.T[0]), BVBin("bvadd", src.T[1], rel))
+				}
+				newInner = Store(newInner, pp, Ite(inRange(pp, dst.T[1], n), sv, Select(dinner, pp)))
+			}
+		} else if c, ok := n.Const(); ok && c.Cmp(big.NewInt(16)) <= 0 {
 			newInner = dinner
 			for j := int64(0); j < c.Int64(); j++ {
 				jj := BVInt(j, 64)
@@ -602,7 +620,7 @@ func (f *frame) copyBuiltin(t *ssa.Call) {
 				return Ite(inRange(j, dst.T[1], n), sv, Select(dinner, j))
 			}, x)
 		}
-		h = x.H.Set(h, k, Store(a, dst.T[0], newInner))
+		h = x.H.SetAt(h, k, dst.T[0], Store(a, dst.T[0], newInner))
 	}
 	f.cur.heap = h
 	f.set(t, scalar(n, types.Typ[types.Int]))
@@ -622,8 +640,8 @@ func (f *frame) appendBuiltin(t *ssa.Call) {
 	}
 	newLen := x.S.Define("applen", BVBin("bvadd", s.T[2], n))
 	fits := x.S.Define("fits", BVCmp("bvule", newLen, s.T[3]))
-	fresh := f.cur.heap.next
-	h := x.H.WithNext(f.cur.heap, x.S.Define("next", IntAdd(fresh, IntConst(1))))
+	fresh := f.freshRef()
+	h := f.cur.heap
 	newCap := x.S.Declare("appcap", SBV(64))
 	f.assume(And(BVCmp("bvule", newLen, newCap), BVCmp("bvule", newCap, BVBin("bvadd", BVBin("bvadd", newLen, newLen), BVInt(64, 64)))))
 	if x.allocBound != nil {
@@ -658,7 +676,7 @@ func (f *frame) appendBuiltin(t *ssa.Call) {
 			return Ite(BVCmp("bvult", j, s.T[2]), Select(inner, BVBin("bvadd", s.T[1], j)),
 				Ite(BVCmp("bvult", j, newLen), srcAt(BVBin("bvsub", j, s.T[2])), zeroOfSort(sorts[i])))
 		}, x)
-		h = x.H.Set(h, k, Ite(fits, Store(a, s.T[0], inPlace), Store(a, fresh, moved)))
+		h = x.H.SetAt(h, k, Ite(fits, s.T[0], fresh), Ite(fits, Store(a, s.T[0], inPlace), Store(a, fresh, moved)))
 	}
 	f.cur.heap = h
 	f.set(t, Val{T: []Term{Ite(fits, s.T[0], fresh), Ite(fits, s.T[1], BVInt(0, 64)), newLen, Ite(fits, s.T[3], newCap)}, Typ: t.Type()})
